@@ -121,7 +121,9 @@ def run_impl(case):
                 mem.store[key] = (None, blob)
                 try:
                     if via == "get": r = await mem.get(key, default=serrun.DEFAULT)
-                    elif via == "get_many": r = (await mem.get_many(key, default=serrun.DEFAULT))[0]
+                    elif via == "get_many":      # a missing key is asked for first: every answer belongs to its own key
+                        rr = await mem.get_many("zz-missing", key, default=serrun.DEFAULT)
+                        r = rr[1] if len(rr) == 2 and rr[0] is serrun.DEFAULT else {"exc": "MISALIGNED"}
                     else:
                         got = [v async for _, v in mem.get_match(key)]
                         r = serrun.DEFAULT if not got or got[0] is None else got[0]
